@@ -46,6 +46,19 @@ CLAIMED["C06"] = {
     "assumptions": ["the restricted grammar covers the constructs named in the property; handlers are lambdas, a named function, a faulting expression or a non-function"],
 }
 
+CLAIMED["C15"] = {
+    "engine": "clock",
+    "level": "fault_enumeration",
+    "technique": "deterministic simulation on a fake clock (testing/synctest bubble): deadlines and cancellations placed at chosen simulated instants around every boundary of (duration, :max, host ceiling, deadline, cancel time); compared with a reference model of sleep and with the simulator's own clock",
+    "text": "Decides the clock-dependent clauses only: time:sleep refuses immediately above the applicable cap (default hour, :max, host ceiling) or beyond the context deadline, never blocks longer than requested or past cancellation, and instants read from the clock around each sleep order, subtract, add and round-trip consistently with the simulated time that actually passed. Each case runs the real libtime inside a synctest bubble: context kind x ceiling x :max x sleep durations drawn from the boundary set (0, negative, cap-1/cap/cap+1, remaining-1/remaining/remaining+1 to the deadline, before/at/after the cancellation instant, years under :max); elapsed simulated time must equal the model's exactly (0 on refusal). The pure string laws of C15 (RFC 3339 acceptance/rejection over arbitrary strings, parse-duration arithmetic) are NOT decided - they have no clock in them.",
+    "note": "Trusted: testing/synctest's fake clock (go1.26.8); the sleep model in sim/e8_clock.go written from docs/lang.md 'Sleep length'. Exact ties (sleep ends exactly at the deadline / cancellation instant) accept either outcome. RFC 3339 and duration-string clauses are out of scope of this technique.",
+    "design_ref": "4/C15",
+    "rule": "case = context kind (none, background, cancel at T, deadline at D, deadline without Done channel, deadline+cancel, already cancelled) x host ceiling x 1-4 sleep calls with boundary-biased duration and :max; distinct_nontrivial counts distinct (context kind, outcome class, elapsed) sequences among cases where a sleep was refused, interrupted, or hit an exact tie.",
+    "real": REAL + ["lisp/lisplib/libtime (sleep, utc-now, time-from, time-add, time<, time>, time=, format/parse-rfc3339-nano, parse-duration, duration-ns) on the fake clock", "context.WithCancel/WithDeadline from the Go standard library inside the bubble"],
+    "stubs": ["the clock and timers (testing/synctest)", "a deadline-only context with a nil Done channel", "host probe builtins"],
+    "assumptions": ["evaluation steps cost zero simulated time, so elapsed time is exactly time spent blocked"],
+}
+
 NOT_APPLICABLE = {
     "C01": "pure function of the program text: no schedule, clock, fault or history in the statement; needs a definitional interpreter (differential testing), which is a different technique",
     "C02": "relation between two fault-free deterministic executions under two static configurations plus a height bound that is a function of the program; nothing for a simulator to schedule or inject (the TRO knob is still randomised inside C04-C06)",
@@ -54,6 +67,11 @@ NOT_APPLICABLE = {
     "C12": "law over a single input value (datum / source text); no schedule, clock, fault or history",
     "C13": "law over a single JSON value / document; no schedule, clock, fault or history",
     "C14": "law over schema x value; no schedule, clock, fault or history",
+    "C08": "a simulation target in DESIGN.md (history clauses); check not built yet at this commit",
+    "C09": "a simulation target in DESIGN.md; check not built yet at this commit",
+    "C10": "a simulation target in DESIGN.md; check not built yet at this commit",
+    "C11": "a simulation target in DESIGN.md (history clauses); check not built yet at this commit",
+    "C20": "a simulation target in DESIGN.md; check not built yet at this commit",
     "C16": "text-to-text function of the source; no schedule, clock, fault or history",
     "C17": "program-equivalence between two fault-free evaluations; no schedule, clock, fault or history",
     "C18": "location and trace are functions of the program; the rethrow-identity clause is checked inside C06",
@@ -61,7 +79,7 @@ NOT_APPLICABLE = {
 }
 
 PENDING = {pid: "a simulation target (see DESIGN.md section 3) whose check is not built yet at this commit; not claimed until it runs clean on the unchanged tree"
-           for pid in [ "C08", "C09", "C10", "C11", "C15", "C20"]}
+           for pid in [] and [ "C08", "C09", "C10", "C11", "C15", "C20"]}
 
 
 def main():
